@@ -48,8 +48,8 @@ Inductive case :=
 (* ------------------------------------------------------------- helpers *)
 Definition dig_p : N := 1099511628211%N.
 Definition digest (d : list slot) (growAt : Z) : N :=
-  fold_left (fun acc s => wrap64 (wrap64 (acc * dig_p + fst s) * dig_p + snd s)%N) d
-            (wrap64 (14695981039346656037 + N.of_nat (length d) * 1000003 + Z.to_N growAt)%N).
+  fold_left (fun acc s => w64 (w64 (acc * dig_p + fst s) * dig_p + snd s)%N) d
+            (w64 (14695981039346656037 + N.of_nat (length d) * 1000003 + Z.to_N growAt)%N).
 
 Definition optN_eqb (a b : option N) : bool :=
   match a, b with Some x, Some y => N.eqb x y | None, None => true | _, _ => false end.
@@ -105,7 +105,7 @@ Fixpoint tab_run (t : table) (steps : list tstep) : option table :=
       | None => None
       | Some t' =>
           if Z.eqb (tlen t') len && negb (t_bad t') &&
-             match dg with Some d => N.eqb (wrap32 (digest (t_data t') (t_growAt t'))) d | None => true end
+             match dg with Some d => N.eqb (N.land (digest (t_data t') (t_growAt t')) 4294967295%N) d | None => true end
           then tab_run t' rest else None
       end
   end.
